@@ -156,14 +156,23 @@ impl Decoder<'_> {
     /// null character (`\0`), or reaching the limit or end of the stream
     /// and erroring out.
     pub fn string(&mut self) -> Result<String> {
-        // If we have a limit, then don't search further than we need to.
-        let slice = match self.limit {
-            Some(limit) => &self.bytes[self.offset..(self.offset + limit * WORD_NUM_BYTES)],
-            None => &self.bytes[self.offset..],
+        let remaining = &self.bytes[self.offset..];
+        // If we have a limit, then don't search further than we need to;
+        // never search past the end of the stream.
+        let window = match self.limit {
+            Some(limit) => match limit.checked_mul(WORD_NUM_BYTES) {
+                Some(num_bytes) if num_bytes <= remaining.len() => Some(num_bytes),
+                _ => None,
+            },
+            None => None,
+        };
+        let slice = match window {
+            Some(num_bytes) => &remaining[..num_bytes],
+            None => remaining,
         };
         // Find the null terminator.
-        let first_null_byte = slice.iter().position(|&c| c == 0).ok_or(match self.limit {
-            Some(_) => Error::LimitReached(self.offset + slice.len()),
+        let first_null_byte = slice.iter().position(|&c| c == 0).ok_or(match window {
+            Some(num_bytes) => Error::LimitReached(self.offset + num_bytes),
             None => Error::StreamExpected(self.offset),
         })?;
         // Validate the string is utf8.
@@ -171,6 +180,10 @@ impl Decoder<'_> {
             .map_err(|e| Error::DecodeStringFailed(self.offset, format!("{}", e)))?;
         // Round up consumed words to include null byte(s).
         let consumed_words = (first_null_byte / WORD_NUM_BYTES) + 1;
+        // The last word of the string must be complete.
+        if consumed_words * WORD_NUM_BYTES > slice.len() {
+            return Err(Error::StreamExpected(self.offset));
+        }
         self.offset += consumed_words * WORD_NUM_BYTES;
         if let Some(ref mut limit) = self.limit {
             // This is guaranteed to be enough due to the slice limit above.
